@@ -45,6 +45,7 @@ Section Exact.
       + exact (IH Hsd').
       + destruct He as (H1 & H2 & H3 & H4).
         assert (Hself : sel_dir (t_path tk) = true) by apply Hsd', prefix_refl.
+        assert (Hfo : filter_ok sel_dir nd (t_path tk) = true) by (apply filter_ok_all; exact Hsd').
         assert (He' : enters true tk nd) by (repeat split; auto).
         eapply E_child; eauto.
   Qed.
@@ -56,7 +57,7 @@ Section Exact.
     assert (Hsd : forall d, prefix d (t_path tk) -> sel_dir d = true) by (intros d; now apply Hc).
     exists tk. split; [now apply visits_prune|].
     destruct He as (H1 & H2 & H3 & H4).
-    assert (Hself : sel_dir (t_path tk) = true) by apply Hsd, prefix_refl.
+    assert (Hfo : filter_ok sel_dir nd (t_path tk) = true) by (apply filter_ok_all; exact Hsd).
     exists nd. split; [|auto]. repeat split; auto.
   Qed.
 
@@ -124,8 +125,8 @@ Section Exact.
     Lemma pre_none_dead tk : pre_b tk = None -> dead (t_path tk).
     Proof.
       unfold WalkProofs.pre_b, dead. destruct (lookup t (t_path tk)) as [nd|] eqn:El; [|reflexivity].
-      assert (match t_kind tk with TPath => sel_dir (t_path tk) | TEntry => true end = true) as ->.
-      { destruct (t_kind tk); auto. }
+      assert (match t_kind tk with TPath => filter_ok sel_dir nd (t_path tk) | TEntry => true end = true) as ->.
+      { destruct (t_kind tk); auto. apply filter_ok_all. auto. }
       cbn [andb]. destruct (never_hidden _ _ El) as [-> | ->]; cbn; [discriminate|].
       rewrite andb_false_r. discriminate.
     Qed.
@@ -137,7 +138,9 @@ Section Exact.
     Lemma enters_transfer tk tka nd :
       t_path tk = t_path tka -> enters false tk nd -> enters true tka nd.
     Proof.
-      intros Hp (H1 & _ & H3 & _). rewrite Hp in *. repeat split; auto.
+      intros Hp (H1 & _ & H3 & _). rewrite Hp in *.
+      assert (Hfo : filter_ok sel_dir nd (t_path tka) = true) by (apply filter_ok_all; auto).
+      repeat split; auto.
       destruct (never_hidden _ _ H1) as [Hh | Hh]; auto.
     Qed.
 
